@@ -488,7 +488,15 @@ def rule_slab_choice(ctx):
             ctx.violation("fuzzy_match_optimal|greedy-fallback|1", site(fmo, bi), "greedy fallback is taken under conditions other than `slab.alloc(..) == None`: %s" % [show(g[3])[:60] for g in others])
 
 
+def rule_prev_class(ctx):
+    """`the best occurrence wins` for one-character needles rests on each occurrence's bonus being computed from its
+    real neighbour: the loop-carried previous class is updated on every iteration (shared with C03.prev-class)."""
+    from props.c03 import rule_prev_class as r
+    r(ctx)
+
+
 def rules(ctx):
+    ctx.run_rule("C04.prev-class", rule_prev_class)
     ctx.run_rule("C04.early-exit", rule_early_exit)
     ctx.run_rule("C04.prefix-additive", rule_prefix_additive)
     ctx.run_rule("C04.cell-equations", rule_cell_equations)
